@@ -27,6 +27,11 @@ ACCEPTED_ALARMS = {
     'C14-r7-with-faces-fast-path-inits-by-face-position': 'second route through compute_face_integrals for cells with stored faces: equivalence with the decomposition route is not established',
     'C16-r7-running-maximum-misses-exact-path-survivors': 'C16.R2: safety radius kept as a running maximum inside the clip loop instead of the recomputation pass',
     'C18-r7-cycle-membership-bitmask-u64': 'C18.R1/R4: cycle membership in a separate Vec<bool> (layout of SimpleCycle changed)',
+    # benign7 = correct twins of the round-8 / round-9 seeded refactorings
+    'C02-r8-search-passes-squared-distance-to-termination-test': 'C01.R3/C16.R4: the search hands the neighbour distance to the builder, whose termination test then compares a stream component (equality with |L - R| not established)',
+    'C02-r8-search-passes-squared-distance-to-termination-test.sqrt-variant': 'as above',
+    'C07-r8-all-false-mask-returns-no-cells': 'C07.R4: early return of n default cells under a scan of the mask (whether the scan means "nothing selected" is a free condition)',
+    'C12-r8-unconstructed-cell-index-lost-on-integrator-route': 'C12.R3: own index given at construction on both routes instead of being (re)assigned by the per-cell finalisation',
 }
 
 
@@ -36,7 +41,7 @@ def corpus():
     if os.path.exists(p):
         out.extend(json.load(open(p)))
     # refactorings written by independent sub-agents (DESIGN §14); ACCEPTED_ALARMS are documented weak spots of the analysis, not of the code
-    for d in ('benign2', 'benign3', 'benign4', 'benign5', 'benign6'):
+    for d in ('benign2', 'benign3', 'benign4', 'benign5', 'benign6', 'benign7'):
         bd = os.path.join(V, 'selftest', d)
         if os.path.isdir(bd):
             for n in sorted(os.listdir(bd)):
